@@ -166,17 +166,23 @@ def _edges(en, n, kinds):
     return edges
 
 
-def make_o2(n, kinds, modes):
+def make_o2(n, kinds, modes, order_mode="site", outcomes=None, max_seeded=None):
+    outcomes = outcomes or OUTCOMES
+
     def o2(en):
         with REG:
             edges = _edges(en, n, kinds)
-            seeded = [i for i in range(n) if en.flag("seeded_%d" % i)]
+            if max_seeded is None:
+                seeded = [i for i in range(n) if en.flag("seeded_%d" % i)]
+            else:
+                k = en.choice("seeded_which", n + 1)
+                seeded = [k] if k < n else []
             mode = modes[en.choice("mode", len(modes))]
             chosen = {}
 
             def outcome_of(i):
                 if i not in chosen:
-                    chosen[i] = OUTCOMES[en.choice("outcome_%d" % i, len(OUTCOMES))]
+                    chosen[i] = outcomes[en.choice("outcome_%d" % i, len(outcomes))]
                 return chosen[i]
             vals = {}
 
@@ -202,7 +208,7 @@ def make_o2(n, kinds, modes):
                                        "seed_kinds": dict((str(i), k) for i, k in seed_kind.items()), "mode": mode, "disabled": [i for i in range(n) if not mv.bool(enabled[i])],
                                        "log": [list(x) for x in w.log]})
             raised = None
-            with oset.symbolic_order():
+            with oset.symbolic_order(mode=order_mode):
                 try:
                     dr.run([w.comps[i] for i in targets] if mode == "all" else w.comps[n - 1], broker=broker)
                 except Exception as ex:  # noqa
@@ -224,7 +230,7 @@ def make_o2(n, kinds, modes):
     return o2
 
 
-def make_o1(n):
+def make_o1(n, order_mode="site"):
     """toposort_flatten on a symbolic digraph given as dict-of-OSet with symbolic key order."""
     def o1(en):
         nodes = list(range(n))
@@ -250,7 +256,7 @@ def make_o1(n):
         en.note_sample(case)
         copy = dict((i, OSet(set.__iter__(v))) for i, v in data.items())
         try:
-            with oset.symbolic_order():
+            with oset.symbolic_order(mode=order_mode):
                 out = ts.toposort_flatten(copy, sort=False)
             err = None
         except ValueError as ex:
@@ -332,22 +338,35 @@ def obligations(tier):
     stubs = ["every set() in dr.py/toposort.py is an OSet whose iteration order is a solver-chosen permutation",
              "component bodies are generated functions whose outcome is a solver-chosen member of %s" % OUTCOMES]
     thorough = tier == "thorough"
-    n1 = 4 if thorough else 3
-    n2 = 4 if thorough else 3
     kinds2 = KINDS[:4]
-    return [
-        Obligation("O1-toposort", make_o1(n1), ["topo-order", "cycle-rejected"],
+    obls = [
+        Obligation("O1-toposort", make_o1(3), ["topo-order", "cycle-rejected"],
                    desc="toposort_flatten(sort=False) on every digraph: permutation of keys+deps with deps first; cyclic => ValueError",
-                   bounds={"nodes": n1, "edges": "all 2^(n(n-1)) digraphs incl. self-dependencies", "key order": "every permutation",
-                           "level order": "every permutation (OSet)"},
-                   stubs=stubs[:1], encoded=enc[:2], budget_s=300 if thorough else 100,
-                   replay="toposort", check_sample=True),
-        Obligation("O2-run", make_o2(n2, kinds2, ["all", "last"]), ["run-returns", "once-and-ordered", "seed-kept"],
+                   bounds={"nodes": 3, "edges": "all 2^(n(n-1)) digraphs incl. self-dependencies", "key order": "every permutation",
+                           "level order": "every independent permutation per iteration (OSet site mode)"},
+                   stubs=stubs[:1], encoded=enc[:2], budget_s=100, replay="toposort", check_sample=True),
+        Obligation("O2-run", make_o2(3, kinds2, ["all", "last"]), ["run-returns", "once-and-ordered", "seed-kept"],
                    desc="dr.run end to end on generated component graphs",
-                   bounds={"components": n2, "edge kinds": kinds2, "outcomes": OUTCOMES, "pre-seeded": "any subset; seed value a symbolic int, None or an empty list",
-                           "enabled": "symbolic boolean per component stored in dr.ENABLED", "targets": "all components / last component"},
-                   stubs=stubs, outside=["load_components import machinery", "graphs with more than %d components" % n2],
-                   encoded=enc, budget_s=600 if thorough else 120, replay="run", check_sample=True),
+                   bounds={"components": 3, "edge kinds": kinds2, "outcomes": OUTCOMES, "pre-seeded": "any subset; seed value a symbolic int, None or an empty list",
+                           "enabled": "symbolic boolean per component stored in dr.ENABLED", "targets": "all components / last component",
+                           "set order": "every independent permutation per iteration (site mode)"},
+                   stubs=stubs, outside=["load_components import machinery", "graphs with more than 4 components"],
+                   encoded=enc, budget_s=200, replay="run", check_sample=True),
+    ]
+    if thorough:
+        obls += [
+            Obligation("O1b-toposort-4", make_o1(4, "global"), ["topo-order", "cycle-rejected"],
+                       desc="same on 4 nodes with one global total order per run (hash-order model)",
+                       bounds={"nodes": 4, "edges": "all 4096 digraphs incl. self-dependencies", "key order": "every permutation", "level order": "every global total order"},
+                       stubs=stubs[:1], encoded=enc[:2], budget_s=900, replay="toposort", check_sample=True),
+            Obligation("O2b-run-4", make_o2(4, ["none", "required", "optional", "group1"], ["all"], "global", ["value", "crash", "skip"], 1),
+                       ["run-returns", "once-and-ordered", "seed-kept"], desc="dr.run on 4-component graphs, global set order",
+                       bounds={"components": 4, "edge kinds": ["none", "required", "optional", "group1"], "outcomes": ["value", "crash", "skip"], "pre-seeded": "at most one component",
+                               "enabled": "symbolic", "set order": "every global total order"},
+                       stubs=stubs, encoded=enc, budget_s=1500, replay="run", check_sample=True),
+        ]
+    n2 = 4 if thorough else 3
+    return obls + [
         Obligation("O3-broker-setitem", make_o3(), ["overwrite-refused"],
                    desc="Broker.__setitem__ refuses to overwrite from any broker state over 3 keys", bounds={"keys": 3},
                    encoded=[dr.Broker.__setitem__], budget_s=30),
